@@ -29,10 +29,20 @@ INITS = [("normal", {}), ("uniform", {}), ("bernoulli", {}), ("random_sparse", {
 RES_INITS = ["normal", "uniform", "bernoulli"]
 
 
+_INT_FORMS = ["int", "int", "int", "np.int64", "np.int32", "np.uint32"]
+_form_state = [0]
+
+
 def spec_json(spec):
+    """an integer seed is handed over as a Python int or as a numpy integer scalar (what a sweep
+    over np.arange(...) or rng.integers(...) produces): the same seed either way"""
     if spec is None:
         return None
-    return {spec[0]: spec[1]}
+    d = {spec[0]: spec[1]}
+    if spec[0] == "int":
+        _form_state[0] = (_form_state[0] * 7 + spec[1] + 3) % len(_INT_FORMS)
+        d["as"] = _INT_FORMS[_form_state[0]]
+    return d
 
 
 # ----------------------------------------------------------------------------- generation
@@ -202,6 +212,12 @@ def gen_scenario(g):
 
 # ----------------------------------------------------------------------------- implementation side
 
+def mspec(spec):
+    if spec is None:
+        return None
+    return {k: v for k, v in spec.items() if k != "as"}
+
+
 def named_input(name, steps, dim=2):
     h = int(hashlib.sha1(name.encode()).hexdigest()[:8], 16)
     return np.random.default_rng(h).uniform(-1, 1, size=(steps, dim))
@@ -227,13 +243,21 @@ class Impl:
         vars(rnd)["__SEED"] = None
         np.random.seed(None)
         datasets.set_seed(5555)
-        self.gens, self.nodes, self.sks, self.params = {}, {}, {}, {}
+        self.gens, self.nodes, self.sks, self.params, self.ref = {}, {}, {}, {}, {}
 
     def seed_obj(self, spec):
         if spec is None:
             return None
         if "int" in spec:
-            return spec["int"]
+            v = spec["int"]
+            how = spec.get("as", "int")
+            if how == "np.int64":
+                return np.int64(v)
+            if how == "np.uint32" and v < 2 ** 32:
+                return np.uint32(v)
+            if how == "np.int32" and v < 2 ** 31:
+                return np.int32(v)
+            return v
         return self.gens[spec["gen"]]
 
     def do(self, o):
@@ -254,11 +278,11 @@ class Impl:
             c = o["call"]
             shape = c["shape"][:1] if c["init"] == "fast_spectral_initialization" else c["shape"]
             M = getattr(mat_gen, c["init"])(*shape, seed=self.seed_obj(o["spec"]), **c["kw"])
-            return [M], {"op": "init_call", "spec": o["spec"], "req": json.dumps(c, sort_keys=True)}, None
+            return [M], {"op": "init_call", "spec": mspec(o["spec"]), "req": json.dumps(c, sort_keys=True)}, None
         if k == "dataset":
             c = o["call"]
             X = getattr(self.datasets, c["fn"])(c["n"], seed=self.seed_obj(o["spec"]))
-            return [X], {"op": "dataset", "spec": o["spec"], "req": json.dumps(c, sort_keys=True)}, None
+            return [X], {"op": "dataset", "spec": mspec(o["spec"]), "req": json.dumps(c, sort_keys=True)}, None
         if k == "legacy":
             return [np.random.rand(o["call"]["n"])], {"op": "legacy", "req": f"rand({o['call']['n']})"}, None
         if k == "mk_res":
@@ -275,7 +299,9 @@ class Impl:
                 ro.initialize(np.ones((1, p["units"])), np.ones((1, 2)))
             self.nodes[o["id"]] = node
             self.params[o["id"]] = p
-            return [], {"op": "mk_res", "id": o["id"], "spec": o["spec"]}, None
+            if o["spec"] is not None and "int" in o["spec"] and p["cls"] == "Reservoir":
+                self.ref[o["id"]] = np.random.default_rng(o["spec"]["int"])
+            return [], {"op": "mk_res", "id": o["id"], "spec": mspec(o["spec"])}, None
         if k == "init_res":
             node, p = self.nodes[o["id"]], self.params[o["id"]]
             node.initialize(named_input("init", 1))
@@ -301,11 +327,42 @@ class Impl:
             rng = node.noise_generator.keywords["rng"]
             before = json.dumps(rng.bit_generator.state, default=str, sort_keys=True)
             X = named_input(o["input"], o["steps"])
+            x_prev = np.array(node.state(), dtype=float).reshape(-1, 1) if node.is_initialized else None
             Y = node.run(X)
             after = json.dumps(rng.bit_generator.state, default=str, sort_keys=True)
             extra = None
             if all(v == 0 for v in gains):
                 extra = ("silent", before == after)
+            ref = self.ref.get(o["id"])
+            if ref is not None and x_prev is not None:
+                # the documented law with noise, the draws replayed from a twin generator in the order
+                # input, feedback, state - a term with zero gain draws nothing
+                from scipy import sparse as _sp
+                dn = lambda a: a.toarray() if _sp.issparse(a) else np.asarray(a)
+                W, Win, b = dn(node.W), dn(node.Win), dn(node.bias).reshape(-1, 1)
+                draw = lambda shape: getattr(ref, p["noise_type"])(size=shape)
+                x, rows = x_prev, []
+                for t in range(len(X)):
+                    u = X[t].reshape(-1, 1)
+                    if gains[0] != 0:
+                        u = u + gains[0] * draw(u.shape)
+                    pre = W @ x + Win @ u + b
+                    if p["fb"]:
+                        y = np.zeros((2, 1))
+                        if gains[2] != 0:
+                            y = y + gains[2] * draw(y.shape)
+                        pre = pre + dn(node.Wfb) @ y
+                    x = (1 - p["lr"]) * x + p["lr"] * np.tanh(pre)
+                    if gains[1] != 0:
+                        x = x + gains[1] * draw(x.shape)
+                    rows.append(x.T.copy())
+                want = np.vstack(rows)
+                law_ok = np.allclose(np.asarray(Y), want, rtol=1e-10, atol=1e-12)
+                state_ok = json.dumps(ref.bit_generator.state, default=str, sort_keys=True) == after
+                if not law_ok or not state_ok:
+                    extra = ("noise_law", False, float(np.max(np.abs(np.asarray(Y) - want))), state_ok)
+                elif extra is None:
+                    extra = ("noise_law", True)
             if saved:
                 node.set_param("noise_in", saved[0])
                 node.set_param("noise_rc", saved[1])
@@ -361,12 +418,21 @@ def check_scenario(ctx, c):
         ctx.violation(f"the scenario raised {r[1]}", c, obligation=ob)
         return
     emits, mops, extras = r[1]
-    for (i, (what, ok)) in extras:
-        ctx.stat("zero-gain runs")
-        if not ok:
-            ctx.violation(f"op {i}: a run with all noise gains equal to zero advanced the node's noise generator (gain 0 must mean no noise drawn at all)",
-                          c, obligation=ob)
-            return
+    for (i, ex) in extras:
+        what, ok = ex[0], ex[1]
+        if what == "silent":
+            ctx.stat("zero-gain runs")
+            if not ok:
+                ctx.violation(f"op {i}: a run with all noise gains equal to zero advanced the node's noise generator (gain 0 must mean no noise drawn at all)",
+                              c, obligation=ob)
+                return
+        else:
+            ctx.stat("noise-law runs")
+            if not ok:
+                ctx.violation(f"op {i}: the trajectory of a seeded reservoir is not the documented law with the noise terms drawn, in the order input / feedback / state, "
+                              f"from a generator with the node's seed, each term scaled by ITS OWN gain and a zero gain drawing nothing "
+                              f"(max difference {ex[2]:.3g}; generator state after the run {'equal' if ex[3] else 'different'})", c, obligation=ob)
+                return
     mo = ctx.model.one({"kind": "seeds", "ops": mops})
     if mo[0] != "ok":
         raise common.FrameworkError("model rejected a C14 scenario: " + mo[1])
